@@ -53,6 +53,12 @@ static size_t rp_rsize(const struct rp_layout *L, size_t k) { return L->mantissa
 #define SAME_PTR(p, q, off) (__CPROVER_POINTER_OBJECT(p) == __CPROVER_POINTER_OBJECT(q) && __CPROVER_POINTER_OFFSET(p) == __CPROVER_POINTER_OFFSET(q) + (off))
 #define MAXP 6000
 #define MAXE 100000
+/* MAXMAN < 64 gives a BOUNDED stand-in (quick tier): headers with a larger mantissa are excluded by an
+ * assumption on the proof bytes; the unbounded unit (thorough tier) is the same harness with MAXMAN = 64. */
+#ifndef MAXMAN
+#define MAXMAN 64
+#endif
+#define BOUND_MANTISSA(proof, plen) __CPROVER_assume(MAXMAN >= 64 || (plen) < 2 || !((proof)[0] & 64) || (proof)[1] < MAXMAN)
 
 static void rp_reset(size_t gk, size_t gb) {
     g_xq_n = 0; g_xq_hit = 0; g_xq_and = 1; g_sq_n = 0; g_sq_hit = 0; g_ag_n = 0; g_ag_hit = 0; g_ag_last_inf = 0; g_ps_n = 0; g_pe_n = 0; g_bv_n = 0; g_bv_v = 0;
@@ -70,6 +76,7 @@ void h_verify_gates(void) {
     __CPROVER_assume(ge_ok(&commit) && !commit.infinity && ge_ok(&genp) && !genp.infinity);
     INPUT_BUF(pf, proof, plen, 2);
     INPUT_BUF(ex, extra, eclen, 8);
+    BOUND_MANTISSA(proof, plen);
     hc.fn_sha256_compression = secp256k1_sha256_transform;
     rp_reset(gk, gb); g_we = -1; g_wpos = 0; g_sq_watch = -1;     /* hash stream not watched here: see h_verify_binding */
     L = rp_spec(proof, plen);             /* pure function of the proof bytes */
@@ -121,7 +128,7 @@ void h_verify_gates(void) {
         if (spare_ok && g_fl_and && g_xq_and && !g_ag_last_inf && !g_sb_or)
             __CPROVER_assert(g_bv_n == 1, "C10 verify gates: a proof passing every format gate reaches the ring equation (no other reason to reject)");
     }
-    if (ret == 1 && L.mantissa == 64 && L.minv != 0) REACH("verify accepts 64-bit mantissa with min");
+    if (ret == 1 && L.mantissa == MAXMAN && L.minv != 0) REACH("verify accepts the largest mantissa with min");
     if (ret == 0 && L.ok && plen == L.total && g_bv_n == 0) REACH("verify rejects a well-sized proof before the ring equation");
 }
 
@@ -134,6 +141,7 @@ void h_verify_binding(void) {
     __CPROVER_assume(ge_ok(&commit) && !commit.infinity && ge_ok(&genp) && !genp.infinity);
     INPUT_BUF(pf, proof, plen, 2);
     INPUT_BUF(ex, extra, eclen, 8);
+    BOUND_MANTISSA(proof, plen);
     hc.fn_sha256_compression = secp256k1_sha256_transform;
     rp_reset(0, gb); g_we = 0; g_wpos = wpos; g_sq_watch = sqw;
     ret = secp256k1_rangeproof_verify_impl(&hc, NULL, NULL, NULL, NULL, NULL, NULL, &minv, &maxv, &commit, proof, plen, use_extra ? extra : NULL, use_extra ? eclen : 0, &genp);
@@ -167,7 +175,7 @@ void h_verify_binding(void) {
             }
         }
         if (use_extra && eclen > 90000 && g_wpos == base + 90000) REACH("binding: far extra_commit byte");
-        if (L.rings == 32 && g_wpos == base - 1) REACH("binding: last digit byte of a 32-ring proof");
+        if (L.mantissa == MAXMAN && g_wpos == base - 1) REACH("binding: last digit byte of the largest proof");
         if (g_wpos == 0) REACH("binding: first byte");
     }
 }
